@@ -51,6 +51,7 @@ SPECS = {
     "embedded-font": ("Eb", lambda t: ["embedded-font"], "text drawn with an embedded TrueType font through the text and graphics APIs (alone and together) -> extractor gives the strings back, incl. code-point runs that cross a 256-code row"),
     "hostile-inputs": ("Eb", lambda t: ["hostile-inputs"], "generated hostile files (boundary integers in the numeric slots, deep nesting, cycles, truncation) x 5 presets in child processes capped at 4 GiB / 20 s: no panic, abort, stack overflow or hang"),
     "pagetree": ("Eb", lambda t: ["pagetree", "3" if t == "thorough" else "2"], "page trees over 3 leaves and 3 /Pages nodes (shared, repeated, cyclic kids), attribute placements, chains of 1..40 levels: page count, page at each index, inherited MediaBox/Rotate"),
+    "cmap": ("Eb", lambda t: ["cmap", "3" if t == "thorough" else "2"], "hand-written CMaps (1..4-byte codes, bfchar, bfrange offset/array form, ranges crossing a row) and ToUnicodeCMapBuilder round trips through CMap::parse / map / to_unicode"),
     "labels": ("Eb", lambda t: ["labels", "20000" if t == "thorough" else "5000"], "decimal/roman format(n) vs reference formatters; PageLabel/PageLabelTree::to_dict read by an independent object-level reader"),
     "content": ("Eb", lambda t: ["content", "4" if t == "thorough" else "3"], "API -> content stream -> ContentParser::parse_strict: show-text operands and f64 operands with NaN/inf"),
     "png-grid": ("Eb", lambda t: ["png-grid"], "PNG files from a reference encoder (gray 1/2/4/8 bit, RGB8; filters 0-4; widths 1..17) -> Image::from_png_data vs expected 8-bit samples"),
